@@ -56,8 +56,10 @@ GapHist(ev) == LET g == Gaps(ev) IN
 (*   [fn, u, v, t, k ("rat" | "times" | "hist" | "exc"), val]               *)
 (***************************************************************************)
 StatEntryOK(O, e) ==
-  LET P == Triples(O)
-      T == IdSet(O)
+  LET T == IdSet(O)
+      \* presence at the snapshot ids (on a removal-enabled graph that is all of it; on an accumulative graph the
+      \* interactions persist between the ids as well, and the statistics range over the snapshot ids)
+      P == { x \in Triples(O) : x[3] \in T }
       V == NodesOf(O)
       chk(r) == r[2] = 0 \/ (e.k = "rat" /\ e.val[2] > 0 /\ RatEq(e.val, r))
   IN
